@@ -512,6 +512,12 @@ func ruleD6(c *Ctx, id string) {
 		d, ok := disciplines[k]
 		ws := writers[n]
 		sort.Strings(ws)
+		if !ok && len(ws) > 0 && !canBeShared(P, n) {
+			// the context object of one call (a function split into phases that share a struct): no struct field,
+			// package-level variable or goroutine can hold a value of this type
+			R.Pass(id, k+"|local to one call", P.Pos(n.Obj().Pos()), "values of this type live in local variables only (no field, package-level variable or goroutine holds one)", fmt.Sprintf("%d serving-path stores", len(ws)))
+			continue
+		}
 		if !ok {
 			R.Check(len(ws) == 0, id, k+"|unclassified", P.Pos(n.Obj().Pos()), "a struct type with stores reachable from handlers has a frozen synchronisation discipline", "no store reachable from the serving path", fmt.Sprintf("new shared state without a discipline: written by %s", strings.Join(ws, ", ")))
 			continue
@@ -753,4 +759,104 @@ func ruleD10(c *Ctx, id string) {
 	}
 	R.Check(len(globals) >= 1, id, "inventory|package-level variables", "?", "the package-level variables of go-nfsd (outside cmd/) are enumerated", fmt.Sprintf("%d variables: %s", len(globals), strings.Join(names, ", ")), "no package-level variable found: the rule has lost sight of its subjects")
 	R.Check(n == 0, id, "summary|no writer outside initialisers", "?", "no function outside package initialisers writes a package-level variable or its memory", "0 writers", fmt.Sprintf("%d writers (listed above)", n))
+}
+
+// mentionsType: t is, points to, or is a container of n.
+func mentionsType(t types.Type, n *types.Named, d int) bool {
+	if d > 6 {
+		return false
+	}
+	if nn, ok := types.Unalias(t).(*types.Named); ok {
+		if nn == n || nn.Origin() == n {
+			return true
+		}
+		if _, isS := nn.Underlying().(*types.Struct); isS {
+			return false // another named struct: looked at on its own
+		}
+		return mentionsType(nn.Underlying(), n, d+1)
+	}
+	switch u := t.(type) {
+	case *types.Pointer:
+		return mentionsType(u.Elem(), n, d+1)
+	case *types.Slice:
+		return mentionsType(u.Elem(), n, d+1)
+	case *types.Array:
+		return mentionsType(u.Elem(), n, d+1)
+	case *types.Map:
+		return mentionsType(u.Key(), n, d+1) || mentionsType(u.Elem(), n, d+1)
+	case *types.Chan:
+		return mentionsType(u.Elem(), n, d+1)
+	case *types.Struct:
+		for i := 0; i < u.NumFields(); i++ {
+			if mentionsType(u.Field(i).Type(), n, d+1) {
+				return true
+			}
+		}
+	case *types.Interface:
+		return false
+	}
+	return false
+}
+
+// canBeShared: a value of struct type n can be reached by two requests: some
+// struct field or package-level variable of go-nfsd can hold it, it implements
+// an interface-typed field's interface... (not followed: interfaces count as
+// able to hold anything of a type with methods), or a goroutine is handed one.
+func canBeShared(P *Program, n *types.Named) bool {
+	for _, pkg := range P.Prog.AllPackages() {
+		if pkg.Pkg == nil || !strings.HasPrefix(pkg.Pkg.Path(), modPath) {
+			continue
+		}
+		sc := pkg.Pkg.Scope()
+		for _, nm := range sc.Names() {
+			switch o := sc.Lookup(nm).(type) {
+			case *types.TypeName:
+				if st, ok := o.Type().Underlying().(*types.Struct); ok {
+					if on, _ := o.Type().(*types.Named); on == n {
+						continue
+					}
+					for i := 0; i < st.NumFields(); i++ {
+						ft := st.Field(i).Type()
+						if mentionsType(ft, n, 0) {
+							return true
+						}
+						// an interface-typed field can hold a value of any type with that method set
+						if it, isI := ft.Underlying().(*types.Interface); isI && it.NumMethods() > 0 && (types.Implements(n, it) || types.Implements(types.NewPointer(n), it)) {
+							return true
+						}
+					}
+				}
+			case *types.Var:
+				if mentionsType(o.Type(), n, 0) {
+					return true
+				}
+			}
+		}
+	}
+	for _, fn := range P.RepoFuncs() {
+		for _, b := range fn.Blocks {
+			for _, in := range b.Instrs {
+				g, ok := in.(*ssa.Go)
+				if !ok {
+					continue
+				}
+				for _, a := range g.Call.Args {
+					if mentionsType(a.Type(), n, 0) {
+						return true
+					}
+				}
+				if mc, ok := g.Call.Value.(*ssa.MakeClosure); ok {
+					for _, bnd := range mc.Bindings {
+						if mentionsType(bnd.Type(), n, 0) {
+							return true
+						}
+					}
+				}
+				if mentionsType(g.Call.Value.Type(), n, 0) {
+					return true
+				}
+			}
+		}
+	}
+	return false
 }
